@@ -2,25 +2,36 @@
 (* Compact block relay, gateway/outline.go and the outline codec of gateway/encoding.go
    (property C18).
 
-   Definition.  A block is a header (parent, nonce, timestamp), a miner address and a list of
-   transactions, v1 before v2.  Its ID is the header hash over the commitment; the commitment
-   is the Merkle root over (state+miner leaf, transaction hashes...) -- symbolic here: hashes are
-   texts, so the model is injective and everything is relative to collision resistance.
-   The OUTLINE of b with the positions O omitted is b with the transactions at O replaced by
-   their hashes.
+   Definition.  A block is a header (parent, nonce, timestamp), a miner address and a SEQUENCE of
+   transactions, v1 before v2.  Nothing makes the members of that sequence distinct: a transaction
+   that spends nothing (arbitrary data only) is valid at every position of a valid block, any number
+   of times.  Its ID is the header hash over the commitment; the commitment is the Merkle root over
+   (state+miner leaf, transaction hashes...) -- symbolic here: hashes are texts, so the model is
+   injective and everything is relative to collision resistance.
+   The OUTLINE of b with the POSITIONS O omitted is b with the transactions at O replaced by
+   their hashes (an outline is a per-position object: the wire form carries one kind byte per
+   position, so the same transaction may be present in full at one position and as a hash at another).
+   The candidate pool is a MULTISET offered in some order; a position is RESOLVED by a pool iff the
+   pool holds a transaction with the position's hash -- however often the pool holds it, and however
+   many positions ask for it.  Completion may take several calls on the same outline.
 
-   Transcription.  OutlineBlock (+ RemoveTransactions), ID / commitment, Missing, Complete
-   (hash maps of the offered pool, later entries overwrite earlier ones, v1 map consulted before
-   the v2 map, payout = block reward + fees of what is present) and the codec (transactions,
-   v2 transactions and hashes sent as three lists plus one kind byte per position).
+   Transcription.  OutlineBlock (+ RemoveTransactions: removal is by hash, so it omits every
+   position of a removed transaction), ID / commitment, Missing, Complete (hash maps of the offered
+   pool, later entries overwrite earlier ones, v1 map consulted before the v2 map, payout = block
+   reward + fees of what is present, found transactions written back into the outline) and the codec
+   (transactions, v2 transactions and hashes sent as three lists plus one kind byte per position).
 
-   Cases.  Every block shape with <= MaxTx transactions (k1 v1, k2 v2) x every omitted set O
-   x every pool: prov subset of O offered, extras (0 none; 1 unrelated v1 and v2 transactions;
-   2 unrelated ones, the block's own non-omitted transactions and every offered one twice),
-   order (0 block order, 1 reversed).  Eval prints the case with the expected outcome.      *)
+   Cases.  Every block with <= MaxTx transactions: k1 v1, k2 v2, and for each version every PATTERN
+   of equal members (restricted growth strings: position j carries the transaction with id g[j]; at
+   most MaxRep positions repeat an earlier one) x every omitted position set O x every pool: prov
+   subset of the omitted ids offered, extras (0 none; 1 unrelated v1 and v2 transactions; 2 unrelated
+   ones, the block's own non-omitted transactions -- with their multiplicities -- and every offered
+   one twice), order (0 block order, 1 reversed).  When the first call leaves positions unresolved, a
+   second call on the same outline is offered the rest (same extras and order) and must deliver the
+   block.  Eval prints the case with the expected outcome.                                         *)
 EXTENDS Integers, Sequences, FiniteSets, TLC, Json
 
-CONSTANTS MaxTx
+CONSTANTS MaxTx, MaxRep
 
 Reward == 1000
 Tx(id, ver) == [id |-> id, ver |-> ver, fee |-> 10 * id + ver]
@@ -34,6 +45,7 @@ Sum(s) == IF s = <<>> THEN 0 ELSE Head(s) + Sum(Tail(s))
 Reverse(s) == [j \in 1..Len(s) |-> s[Len(s) + 1 - j]]
 RECURSIVE SortedSeq(_)
 SortedSeq(S) == IF S = {} THEN <<>> ELSE LET x == CHOOSE y \in S : \A z \in S : y <= z IN <<x>> \o SortedSeq(S \ {x})
+MaxOf(S) == IF S = {} THEN 0 ELSE CHOOSE y \in S : \A z \in S : z <= y
 
 \* State.Commitment / V2BlockOutline.commitment: leaf 0 binds the parent state and the miner address
 Commit(miner, hashes) == "C(S|" \o miner \o Join(hashes) \o ")"
@@ -41,9 +53,15 @@ HeaderID(parent, nonce, ts, com) == "B(" \o parent \o "," \o ToString(nonce) \o 
 
 -----------------------------------------------------------------------------
 (* ------------------------------ definition ------------------------------- *)
-TheBlock(k1, k2) ==
-  LET v1 == [j \in 1..k1 |-> Tx(j, 1)]
-      v2 == [j \in 1..k2 |-> Tx(k1 + j, 2)]
+\* patterns of equal members among k positions: restricted growth strings
+Patterns(k) == {g \in [1..k -> 1..k] : \A j \in 1..k : g[j] <= 1 + MaxOf({g[i] : i \in 1..(j - 1)})}
+Repeats(g) == Len(g) - Cardinality({g[j] : j \in 1..Len(g)})
+
+\* position j of the v1 list carries transaction g1[j]; position j of the v2 list transaction k1 + g2[j]
+TheBlock(g1, g2) ==
+  LET k1 == Len(g1)
+      v1 == [j \in 1..k1 |-> Tx(g1[j], 1)]
+      v2 == [j \in 1..Len(g2) |-> Tx(k1 + g2[j], 2)]
       all == v1 \o v2
   IN [parent |-> "P", nonce |-> 7, ts |-> 9, height |-> 5,
       payouts |-> <<[addr |-> "M", val |-> Reward + Sum([j \in 1..Len(all) |-> all[j].fee])]>>,
@@ -51,11 +69,19 @@ TheBlock(k1, k2) ==
       commitment |-> Commit("M", [j \in 1..Len(all) |-> Hash(all[j])])]
 Txs(b) == b.v1 \o b.v2
 BlockID(b) == HeaderID(b.parent, b.nonce, b.ts, b.commitment)
+IdsAt(b, S) == {Txs(b)[j].id : j \in S}
+TxOfId(b, i) == Txs(b)[CHOOSE j \in 1..Len(Txs(b)) : Txs(b)[j].id = i]
 
 \* the outline of b with the positions O omitted
 OutlineOf(b, O) ==
   [height |-> b.height, parent |-> b.parent, nonce |-> b.nonce, ts |-> b.ts, miner |-> b.payouts[1].addr,
    txs |-> [j \in 1..Len(Txs(b)) |-> [hash |-> Hash(Txs(b)[j]), tx |-> IF j \in O THEN NoTx ELSE Txs(b)[j]]]]
+
+\* every position that carries a transaction also carried by a position of O
+Closure(b, O) == {j \in 1..Len(Txs(b)) : \E i \in O : Txs(b)[i] = Txs(b)[j]}
+
+\* the positions of O a pool (any sequence of transactions) resolves
+Resolved(b, O, pool) == {j \in O : \E i \in 1..Len(pool) : Hash(pool[i]) = Hash(Txs(b)[j])}
 
 -----------------------------------------------------------------------------
 (* ----------------------------- transcription ----------------------------- *)
@@ -74,7 +100,7 @@ OutlineCommitment(o) == Commit(o.miner, [j \in 1..Len(o.txs) |-> o.txs[j].hash])
 OutlineID(o) == HeaderID(o.parent, o.nonce, o.ts, OutlineCommitment(o))
 Missing(o) == LET ms == SelectSeq(o.txs, LAMBDA e : e.tx = NoTx) IN [j \in 1..Len(ms) |-> ms[j].hash]
 
-\* map built by  for i := range txns { m[hash(txns[i])] = &txns[i] }
+\* map built by  for i := range txns { m[hash(txns[i])] = &txns[i] } ; the map is only read afterwards
 Lookup(pool, h) ==
   LET hits == {j \in 1..Len(pool) : Hash(pool[j]) = h}
   IN IF hits = {} THEN NoTx ELSE pool[CHOOSE j \in hits : \A k \in hits : k <= j]
@@ -113,64 +139,89 @@ Decode(w) ==
 -----------------------------------------------------------------------------
 (* --------------------------------- cases --------------------------------- *)
 Extras == <<Tx(101, 1), Tx(102, 2), Tx(103, 1), Tx(104, 2)>>
+\* a pool for the outline of b with the positions O omitted: the transactions with the ids prov are offered
 PoolOf(b, O, prov, extras, ord) ==
   LET k == Len(Txs(b))
-      offered == [j \in 1..Cardinality(prov) |-> Txs(b)[SortedSeq(prov)[j]]]
+      offered == [j \in 1..Cardinality(prov) |-> TxOfId(b, SortedSeq(prov)[j])]
       own == LET s == SortedSeq((1..k) \ O) IN [j \in 1..Len(s) |-> Txs(b)[s[j]]]
       base == IF extras = 0 THEN offered
               ELSE IF extras = 1 THEN SubSeq(Extras, 1, 2) \o offered \o SubSeq(Extras, 3, 4)
               ELSE offered \o Extras \o own \o offered
   IN IF ord = 1 THEN Reverse(base) ELSE base
-Class(O, prov, extras, ord) ==
-  IF O = {} THEN "nothing-omitted"
-  ELSE IF prov = O THEN (IF extras > 0 THEN "superset" ELSE IF ord = 1 /\ Cardinality(O) > 1 THEN "permuted" ELSE "exact")
-  ELSE IF prov = {} THEN (IF extras > 0 THEN "unrelated-only" ELSE "empty")
+\* class of the pool by what it resolves (got: ids of resolved positions)
+Class(OI, got, extras, ord) ==
+  IF OI = {} THEN "nothing-omitted"
+  ELSE IF got = OI THEN (IF extras > 0 THEN "superset" ELSE IF ord = 1 /\ Cardinality(OI) > 1 THEN "permuted" ELSE "exact")
+  ELSE IF got = {} THEN (IF extras > 0 THEN "unrelated-only" ELSE "empty")
   ELSE (IF extras > 0 THEN "partial+extra" ELSE "partial")
+RepTag(b, O) ==
+  IF \E i, j \in O : i # j /\ Txs(b)[i] = Txs(b)[j] THEN "/repeated-omitted"
+  ELSE IF \E i, j \in 1..Len(Txs(b)) : i # j /\ Txs(b)[i] = Txs(b)[j] THEN "/repeated"
+  ELSE ""
+HashesAt(b, s) == [j \in 1..Len(s) |-> Hash(Txs(b)[s[j]])]
+IdsOf(pool) == [j \in 1..Len(pool) |-> pool[j].id]
+V(pool, ver) == SelectSeq(pool, LAMBDA t : t.ver = ver)
 
 Case(p) ==
-  LET b  == TheBlock(p.k1, p.k2)
-      k  == p.k1 + p.k2
+  LET b  == TheBlock(p.g1, p.g2)
+      k  == Len(Txs(b))
       rm == [j \in 1..Cardinality(p.O) |-> Txs(b)[SortedSeq(p.O)[j]]]
-      o  == OutlineBlock(b, SelectSeq(rm, LAMBDA t : t.ver = 1), SelectSeq(rm, LAMBDA t : t.ver = 2))
+      orm == OutlineBlock(b, V(rm, 1), V(rm, 2))          \* what OutlineBlock makes of "omit these"
+      o  == OutlineOf(b, p.O)                             \* the outline under test
       pool == PoolOf(b, p.O, p.prov, p.extras, p.ord)
-      pool1 == SelectSeq(pool, LAMBDA t : t.ver = 1)
-      pool2 == SelectSeq(pool, LAMBDA t : t.ver = 2)
-      r  == Complete(o, pool1, pool2)
-      still == SortedSeq(p.O \ p.prov)
-  IN [k1 |-> p.k1, k2 |-> p.k2, omit |-> SortedSeq(p.O), class |-> Class(p.O, p.prov, p.extras, p.ord),
-      pool1 |-> [j \in 1..Len(pool1) |-> pool1[j].id], pool2 |-> [j \in 1..Len(pool2) |-> pool2[j].id],
-      complete |-> p.prov = p.O, missing |-> still,
-      kinds |-> Encode(o).kinds,
-      okOutline  |-> o = OutlineOf(b, p.O),
-      okID       |-> OutlineID(o) = BlockID(b),
-      okMissing  |-> Missing(o) = [j \in 1..Cardinality(p.O) |-> Hash(Txs(b)[SortedSeq(p.O)[j]])],
-      okComplete |-> /\ r.missing = [j \in 1..Len(still) |-> Hash(Txs(b)[still[j]])]
-                     /\ (p.prov = p.O) <=> (r.block = b)
-                     /\ r.outline = OutlineOf(b, p.O \ p.prov),
-      okCodec    |-> Decode(Encode(o)) = o /\ Decode(Encode(r.outline)) = r.outline]
+      r  == Complete(o, V(pool, 1), V(pool, 2))
+      still == p.O \ Resolved(b, p.O, pool)
+      \* second call on the same outline: the rest arrives
+      poolB == PoolOf(b, still, IdsAt(b, still), p.extras, p.ord)
+      rB == Complete(r.outline, V(poolB, 1), V(poolB, 2))
+  IN [k1 |-> Len(p.g1), k2 |-> Len(p.g2), ids |-> [j \in 1..k |-> Txs(b)[j].id],
+      omit |-> SortedSeq(p.O), omitrm |-> SortedSeq(Closure(b, p.O)),
+      class |-> Class(IdsAt(b, p.O), IdsAt(b, p.O \ still), p.extras, p.ord) \o RepTag(b, p.O),
+      pool1 |-> IdsOf(V(pool, 1)), pool2 |-> IdsOf(V(pool, 2)),
+      complete |-> still = {}, missing |-> SortedSeq(still),
+      pool1b |-> IdsOf(V(poolB, 1)), pool2b |-> IdsOf(V(poolB, 2)),
+      kinds |-> Encode(o).kinds, kindsrm |-> Encode(orm).kinds,
+      okOutline  |-> /\ orm = OutlineOf(b, Closure(b, p.O))
+                     /\ (Closure(b, p.O) = p.O) => orm = o,
+      okID       |-> OutlineID(o) = BlockID(b) /\ OutlineID(orm) = BlockID(b),
+      okMissing  |-> /\ Missing(o) = HashesAt(b, SortedSeq(p.O))
+                     /\ Missing(orm) = HashesAt(b, SortedSeq(Closure(b, p.O))),
+      okComplete |-> /\ r.missing = HashesAt(b, SortedSeq(still))
+                     /\ (still = {}) <=> (r.block = b)
+                     /\ r.outline = OutlineOf(b, still),
+      okSecond   |-> /\ rB.missing = <<>>
+                     /\ rB.block = b
+                     /\ rB.outline = OutlineOf(b, {}),
+      okCodec    |-> /\ Decode(Encode(o)) = o /\ Decode(Encode(orm)) = orm
+                     /\ Decode(Encode(r.outline)) = r.outline]
 
 VARIABLES plan, out
 vars == <<plan, out>>
 Init ==
-  /\ \E k1 \in 0..MaxTx : \E k2 \in 0..(MaxTx - k1) : \E O \in SUBSET (1..(k1 + k2)) : \E prov \in SUBSET O :
-       \E extras \in 0..2 : \E ord \in 0..1 :
-         plan = [ph |-> 0, k1 |-> k1, k2 |-> k2, O |-> O, prov |-> prov, extras |-> extras, ord |-> ord]
+  /\ \E k1 \in 0..MaxTx : \E k2 \in 0..(MaxTx - k1) : \E g1 \in Patterns(k1) : \E g2 \in Patterns(k2) :
+       /\ Repeats(g1) + Repeats(g2) <= MaxRep
+       /\ \E O \in SUBSET (1..(k1 + k2)) : \E prov \in SUBSET IdsAt(TheBlock(g1, g2), O) :
+            \E extras \in 0..2 : \E ord \in 0..1 :
+              plan = [ph |-> 0, g1 |-> g1, g2 |-> g2, O |-> O, prov |-> prov, extras |-> extras, ord |-> ord]
   /\ out = [ph |-> 0]
 Eval ==
   /\ plan.ph = 0
   /\ plan' = [plan EXCEPT !.ph = 1]
   /\ \E r \in {Case(plan)} :
        /\ out' = [ph |-> 1, okOutline |-> r.okOutline, okID |-> r.okID, okMissing |-> r.okMissing,
-                  okComplete |-> r.okComplete, okCodec |-> r.okCodec]
-       /\ PrintT("@@OUTLINE " \o ToJson([k1 |-> r.k1, k2 |-> r.k2, omit |-> r.omit, class |-> r.class, pool1 |-> r.pool1,
-                                         pool2 |-> r.pool2, complete |-> r.complete, missing |-> r.missing, kinds |-> r.kinds]))
+                  okComplete |-> r.okComplete, okSecond |-> r.okSecond, okCodec |-> r.okCodec]
+       /\ PrintT("@@OUTLINE " \o ToJson([k1 |-> r.k1, k2 |-> r.k2, ids |-> r.ids, omit |-> r.omit, omitrm |-> r.omitrm,
+                                         class |-> r.class, pool1 |-> r.pool1, pool2 |-> r.pool2, complete |-> r.complete,
+                                         missing |-> r.missing, pool1b |-> r.pool1b, pool2b |-> r.pool2b,
+                                         kinds |-> r.kinds, kindsrm |-> r.kindsrm]))
 Next == Eval
 Spec == Init /\ [][Next]_vars
 
 Done == out.ph = 1
-OutlineIsDefinition == Done => out.okOutline     \* OutlineBlock/RemoveTransactions = block with O replaced by hashes
+OutlineIsDefinition == Done => out.okOutline     \* OutlineBlock/RemoveTransactions = block with every position of an omitted transaction replaced by its hash
 SameID              == Done => out.okID          \* outline ID = block ID
-MissingExact        == Done => out.okMissing     \* Missing = the omitted hashes, in block order
-CompleteExact       == Done => out.okComplete    \* original block iff everything omitted was offered, else exactly the rest
+MissingExact        == Done => out.okMissing     \* Missing = the hashes of the omitted positions, in block order
+CompleteExact       == Done => out.okComplete    \* original block iff the pool resolves every omitted position, else exactly the rest
+SecondCallCompletes == Done => out.okSecond      \* a second call that is offered the rest delivers the original block
 CodecIdentity       == Done => out.okCodec       \* decode(encode(outline)) = outline
 =============================================================================
